@@ -246,7 +246,8 @@ theorem finishCall_result (f : FuncVal) (args : List Obj) (cur before after : Na
   have tail : ∀ s s', run (do
         if (after != before) = true then
           (triggerNoCache cur >>= fun _ => (pure res : M Obj))
-        else if res.isError = true then pure res else cacheSet f.key args res output >>= fun _ => pure res) s = (.ok r', s') →
+        else if res.isError = true then pure res
+        else if holdsFunc res = true then pure res else cacheSet f.key args res output >>= fun _ => pure res) s = (.ok r', s') →
       r' = res := by
     intro s s' h
     split at h
@@ -258,6 +259,8 @@ theorem finishCall_result (f : FuncVal) (args : List Obj) (cur before after : Na
         | error e => cases h
         | ok u => cases h; rfl
     · split at h
+      · cases h; rfl
+      split at h
       · cases h; rfl
       · rw [run_bind] at h
         cases ht : run (cacheSet f.key args res output) s with
